@@ -282,6 +282,12 @@ Theorem numericalgradient_unweighted_partial : forall (w x : list R) (h : R) (i 
   nth i (numgrad sqrt w (FLeaf (leaf_l2sq (wspace sqrt w))) NGCentral h x) 0
   = nth i (gradient (FLeaf (leaf_l2sq (wspace sqrt w))) x) 0.
 Proof. exact numgrad_unweighted_partial. Qed.
+(* the proposed repair (variant riesz = true: entries divided by w_i) is the gradient *)
+Theorem numericalgradient_repaired : forall (w x : list R) (h : R) (i : nat),
+  Forall (fun a => 0 < a) w -> length x = length w -> (i < length w)%nat -> h <> 0 ->
+  nth i (numgrad_v sqrt true w (FLeaf (leaf_l2sq (wspace sqrt w))) NGCentral h x) 0
+  = nth i (gradient (FLeaf (leaf_l2sq (wspace sqrt w))) x) 0.
+Proof. exact numgrad_repaired. Qed.
 Print Assumptions numericalgradient_weighted_refuted.
 
 (* Non-vacuity: rn(1, weighting=w) satisfies the laws for every w > 0, and a
